@@ -226,7 +226,16 @@ def _procs() -> int:
 
 
 def main(tier: str, seed: int) -> int:
+    import time
     rep = core.Report(PROP, tier, seed)
+    t_phase = time.time()
+    phases: dict[str, float] = {}
+
+    def phase(name: str) -> None:
+        nonlocal t_phase
+        phases[name] = round(time.time() - t_phase, 1)
+        t_phase = time.time()
+
     rep.assumptions += ASSUME
     rng = random.Random(seed)
     cfgdir = core.OUT / PROP
@@ -241,6 +250,7 @@ def main(tier: str, seed: int) -> int:
         jobs = [f.result() for f in futs]
         repro = [f.result() for f in rfuts]
 
+    phase("tlc_model_runs")
     for r in repro:
         if not r["refuted"]:
             raise tlc.TLCError(f"the model no longer reproduces the pinned defect: {r['inv']} holds in "
@@ -291,6 +301,7 @@ def main(tier: str, seed: int) -> int:
                       chunk=100, **json.loads(kwj))
         for i, r in zip(idxs, res):
             results[i] = r
+    phase("replay")
     traces = []
     for i, r in enumerate(results):
         if "machinery_error" in r:
@@ -301,6 +312,8 @@ def main(tier: str, seed: int) -> int:
 
     verdicts = tlc.validate_traces("T_Cache", traces, tag="C20-T_Cache", chunk=3000)
     rep.traces += len(verdicts)
+    phase("tlc_trace_validation")
+    rep.extra["phase_wall_s"] = phases
     counts: dict[str, int] = {}
     nontrivial = skipped = 0
     for v in verdicts:
